@@ -28,7 +28,10 @@ def aggregate_findings():
         d = json.loads(p.read_text())
         for k in ("open", "fixed"):
             for f in d.get(k, []):
-                agg[k].append({"property": p.stem, **f})
+                e = {"property": p.stem, **f}
+                if k == "fixed":
+                    e["record"] = f"fixed: property={p.stem} {f.get('commit', '?')} {f.get('what', f.get('key', ''))}"
+                agg[k].append(e)
         for f in d.get("fixed", []):
             c = f.get("commit")
             if c and c not in agg["fix_commits"]:
